@@ -388,11 +388,16 @@ Record proj := {
 
 Definition site0 : site := {| st_task := 0; st_path := [] |}.
 
+(* in test-id mode an identifier >= 900 is a uuid4 that leaked (an instance announced before it
+   was given its test id - only in the shapes of the known parallel-loop defects); which
+   uuid4 it is cannot be compared, so all of them are identified *)
+Definition leak (i : nat) : nat := if Nat.leb 900 i then 900 else i.
+
 Definition proj_notif (p : proj) (n : notif) : notif :=
   {| n_kind := n_kind n; n_name := n_name n;
      n_site := if pj_sites p then n_site n else site0;
-     n_id := if pj_ids p then n_id n else 0;
-     n_ctx := if pj_ids p then n_ctx n else None;
+     n_id := if pj_ids p then leak (n_id n) else 0;
+     n_ctx := if pj_ids p then option_map leak (n_ctx n) else None;
      n_params := if pj_params p && (pj_fin_params p || is_kind TS n || is_kind SS n)
                  then n_params n else [] |}.
 
@@ -401,17 +406,17 @@ Definition proj_entry (p : proj) (e : entry) : list entry :=
   | ENotif l n r =>
     if pj_all_listeners p || Nat.eqb l 0
     then [ENotif l (proj_notif p n) (if pj_running p then r else true)] else []
-  | EObs o k nm id f => if pj_obs p then [EObs o k nm (if pj_ids p then id else 0) f] else []
-  | EQuery v c => if pj_queries p then [EQuery v (if pj_ids p then c else 0)] else []
-  | EFireIn i => if pj_ids p then [EFireIn i] else []
-  | EFireOut i r => if pj_ids p then [EFireOut i r] else []
+  | EObs o k nm id f => if pj_obs p then [EObs o k nm (if pj_ids p then leak id else 0) f] else []
+  | EQuery v c => if pj_queries p then [EQuery v (if pj_ids p then leak c else 0)] else []
+  | EFireIn i => if pj_ids p then [EFireIn (leak i)] else []
+  | EFireOut i r => if pj_ids p then [EFireOut (leak i) r] else []
   end.
 
 Definition proj_rec (p : proj) (r : callrec) : callrec :=
   {| cr_ret := cr_ret r;
      cr_log := flat_map (proj_entry p) (cr_log r);
      cr_running := if pj_state p then cr_running r else true;
-     cr_awaited := if pj_state p then (if pj_ids p then cr_awaited r
+     cr_awaited := if pj_state p then (if pj_ids p then map leak (cr_awaited r)
                                        else map (fun _ => 0) (cr_awaited r)) else [];
      cr_final := if pj_state p then cr_final r else true |}.
 
